@@ -48,7 +48,42 @@ def le_guard(key, bound, name):
 def run(prog, chk):
     buffer_tables(prog, chk)
     remap_table(prog, chk)
+    refused_mutation(prog, chk)
     _run(prog, chk)
+
+
+def refused_mutation(prog, chk):
+    """A mutator of a TLV object that reports failure must not have changed the object's length bookkeeping: the serializers trust
+    datap_len / ftlv.dat_len, so a length stored before the refusal is written out as an element of a size its buffer does not have."""
+    from ksirules.atomic import _scalar_store, refusals_after_store
+    from ksirules.model import walk
+    chk.rule("C09.atomic", "a refused mutation leaves the element's length fields unchanged (no failing return after a length store)", floor=6)
+    n = 0
+    for fn in sorted(prog.all_functions(), key=lambda f: (f.unit, f.line)):
+        if fn.unit not in ("tlv.c", "tlv_element.c"):
+            continue
+        params = {q["n"] for q in fn.params if "*" in (q.get("t") or "")}
+        stores = set()
+        for b, i, el in fn.elems():
+            if isinstance(el["e"], dict):
+                for m in walk(el["e"]):
+                    st = _scalar_store(fn, m, params)
+                    if st:
+                        stores.add(st)
+        if not stores:
+            continue
+        n += 1
+        hits = list(refusals_after_store(fn))
+        chk.touched(fn)
+        if not hits:
+            chk.ob("C09.atomic", fn.name, True, "stores to %s: no failing return reachable afterwards without the field being stored again"
+                   % ", ".join("%s->%s" % s for s in sorted(stores)), loc=fn.loc(), fn=fn)
+        for par, field, sl, rl, path in hits:
+            chk.ob("C09.atomic", "%s:%s->%s" % (fn.name, par, field), False,
+                   "%s->%s is stored at %s and the function can still return a failure status at %s: the refused call has changed the element"
+                   % (par, field, sl, rl), loc=sl, fn=fn)
+    if n < 6:
+        raise AnalysisBroken("C09.atomic: only %d TLV mutators with length stores found" % n)
 
 
 def _run(prog, chk):
